@@ -38,6 +38,30 @@ let canon_bai (i : bai_index) =
   string_of_int (List.length i.bi_refs) ^ ":" ^ String.concat "/" (List.map rf i.bi_refs)
   ^ (match i.bi_unplaced with Some n -> "#" ^ dec_of_n n | None -> "#-")
 
+(* canonical text of CSI / tabix / fai / crai indexes, as harness/src/shared/c13_index.rs prints them *)
+let fmt_list sep l f = if l = [] then "_" else String.concat sep (List.map f l)
+let fmt_opt o f = match o with None -> "-" | Some x -> f x
+let fmt_pairs cs = fmt_list "," cs (fun (a, b) -> dec_of_n a ^ ":" ^ dec_of_n b)
+let fmt_name nm = if nm = [] then "." else hex_of_bytes nm
+let fmt_hdr ho = fmt_opt ho (fun h -> String.concat ":" [
+  (match h.h_format with FGeneric false -> "g" | FGeneric true -> "b" | FSam -> "s" | FVcf -> "v");
+  dec_of_n h.h_seq; dec_of_n h.h_beg; fmt_opt h.h_end dec_of_n; dec_of_n h.h_meta; dec_of_n h.h_skip;
+  fmt_list "," h.h_names fmt_name ])
+let fmt_meta mo = fmt_opt mo (fun m ->
+  String.concat ":" [dec_of_n m.m_beg; dec_of_n m.m_end; dec_of_n m.m_mapped; dec_of_n m.m_unmapped])
+let fmt_bins bs = fmt_list ";" bs (fun (id, cs) -> dec_of_n id ^ "=" ^ fmt_pairs cs)
+let fmt_cref r = String.concat "|" [fmt_bins r.cr_bins; fmt_pairs r.cr_loffs; fmt_meta r.cr_meta]
+let fmt_tref r = String.concat "|" [fmt_bins r.br_bins; fmt_meta r.br_meta; fmt_list "," r.br_intervals dec_of_n]
+let fmt_csi i = String.concat "~" [dec_of_n i.ci_ms; string_of_int (int_of_nat i.ci_depth); fmt_hdr i.ci_header;
+                                   fmt_list "/" i.ci_refs fmt_cref; fmt_opt i.ci_unplaced dec_of_n]
+let fmt_tbi i = String.concat "~" [fmt_hdr i.ti_header; fmt_list "/" i.ti_refs fmt_tref; fmt_opt i.ti_unplaced dec_of_n]
+let fmt_fai rs = fmt_list ";" rs (fun r -> String.concat ":"
+  [hex_of_bytes r.f_name; dec_of_n r.f_len; dec_of_n r.f_pos; dec_of_n r.f_lb; dec_of_n r.f_lw])
+let fmt_crai rs = fmt_list ";" rs (fun r -> String.concat ":"
+  [fmt_opt r.c_rid dec_of_n; fmt_opt r.c_start dec_of_n; dec_of_n r.c_span; dec_of_n r.c_off;
+   dec_of_n r.c_land; dec_of_n r.c_slen])
+let tok o f = match o with None -> "Err" | Some i -> "Ok:" ^ f i
+
 let rec firstn_ml k l = if k <= 0 then [] else match l with [] -> [] | x :: t -> x :: firstn_ml (k - 1) t
 
 let handle kind a =
@@ -93,6 +117,26 @@ let handle kind a =
         match read_gzi (firstn_ml k bs) with
         | None -> "Err"
         | Some l -> "Ok:" ^ String.concat "," (List.map (fun (c, u) -> dec_of_n c ^ "-" ^ dec_of_n u) l)) cuts))
+  | "csi" | "tbi" | "fai" | "crai" ->
+      let bs = bytes_of_hex a.(0) in
+      let cuts = parse_cuts a.(1) (hex_len a.(0)) in
+      (* taking the prefix is the case's input preparation (the harness passes payload[..k]) *)
+      Some (String.concat " " (List.map (fun k ->
+        let p = firstn_ml k bs in
+        match kind with
+        | "csi" -> tok (read_csi p) fmt_csi
+        | "tbi" -> tok (read_tbi p) fmt_tbi
+        | "fai" -> tok (read_fai p) fmt_fai
+        | _ -> tok (read_crai p) fmt_crai) cuts))
+  | "csiz" | "tbiz" ->
+      let bs = bytes_of_hex a.(0) in
+      let tab = parse_table a.(0) a.(1) in
+      let cuts = parse_cuts a.(2) (hex_len a.(0)) in
+      Some (String.concat " " (List.map (fun k ->
+        if kind = "csiz" then
+          (match obs_csiz tab (nat_of_int k) bs with None -> "X" | Some o -> tok o fmt_csi)
+        else
+          (match obs_tbiz tab (nat_of_int k) bs with None -> "X" | Some o -> tok o fmt_tbi)) cuts))
   | "cramc" ->
       let bs = bytes_of_hex a.(0) in
       let tab = if a.(1) = "_" || a.(1) = "" then []
